@@ -33,7 +33,7 @@ def fencedFrom (asg : List (Nat × Int)) : List MStep → Bool
   | [] => true
   | m :: ms =>
     let asg' := match m.ev with
-      | .syncDone (.ok a) => flatten a
+      | .syncDone (.ok a) => if m.obs == [.badOp] then asg else flatten a   -- (a reply the member processed)
       | _ => asg
     fencedStep asg' m && fencedFrom asg' ms
 
